@@ -31,6 +31,7 @@ M = [
  ("phase_two_unfixable_infeasible", "src/pwl/impl_infeasible_elim.rs", "                        counter.lps_error += 1;\n                        NodeState::Indeterminate\n                    }\n                } else {\n                    counter.lps_feasible += 1;", "                        counter.lps_error += 1;\n                        NodeState::Infeasible\n                    }\n                } else {\n                    counter.lps_feasible += 1;", ["C11"]),
  ("d9_reintroduced_elim", "src/pwl/impl_infeasible_elim.rs", "if self.tree.contains(node) && self.tree.num_children(node) > 1 {", "if self.tree.contains(node) {", ["C03", "C04"]),
  ("minilp_panic_fix_reverted", "src/linalg/polyhedron.rs", "        let result = match std::panic::catch_unwind(std::panic::AssertUnwindSafe(|| pb.solve())) {\n            Ok(result) => result,\n            Err(_) => return PolytopeStatus::Error(\"minilp panicked while solving\".to_owned()),\n        };", "        let result = pb.solve();", ["C10"]),
+ ("mirror_points_contains_fix_reverted", "src/pwl/impl_infeasible_elim.rs", ".filter(|(point, dist)| dist.iter().all(|val| *val >= 0.) && poly.contains(point))", ".filter(|(_, dist)| dist.iter().all(|val| *val >= 0.))", ["C04", "C05"]),
  # C04
  ("remove_child_keeps_isleaf", "src/tree/graph.rs", "        if self.num_children(parent) == 0 {\n            self.arena[parent].isleaf = true;\n        }", "", ["C12", "C04"]),
  ("compose_forward_ignores_skipped", "src/pwl/impl_composition.rs", "if created_children == 1 && created_children + skipped_children == K {", "if created_children == 1 {", ["C03", "C04", "C07"]),
@@ -134,6 +135,8 @@ def setup():
     os.makedirs(HARN, exist_ok=True)
     shutil.copytree(os.path.join(ROOT, "harness", "src"), os.path.join(HARN, "src"))
     shutil.copytree(os.path.join(ROOT, "harness", ".cargo"), os.path.join(HARN, ".cargo"))
+    if os.path.isdir(os.path.join(ROOT, "harness", "regress")):
+        shutil.copytree(os.path.join(ROOT, "harness", "regress"), os.path.join(HARN, "regress"))
     shutil.copy(os.path.join(ROOT, "harness", "Cargo.lock"), HARN)
     t = open(os.path.join(ROOT, "harness", "Cargo.toml")).read().replace('path = "/repo"', f'path = "{REPO}"')
     open(os.path.join(HARN, "Cargo.toml"), "w").write(t)
